@@ -3,16 +3,24 @@
 // This source code is licensed under the MIT license found in the
 // LICENSE file in the root directory of this source tree.
 
+#[cfg(not(winterfell_verif))]
 use alloc::{
     collections::{BTreeMap, BTreeSet},
     vec::Vec,
 };
+#[cfg(winterfell_verif)]
+use alloc::vec::Vec;
+#[cfg(winterfell_verif)]
+use vmap::{BTreeMap, BTreeSet};
 use core::slice;
 
 use crate::{errors::MerkleTreeError, hash::Hasher};
 
 mod proofs;
 pub use proofs::BatchMerkleProof;
+
+#[cfg(winterfell_verif)]
+mod vmap;
 
 #[cfg(feature = "concurrent")]
 pub mod concurrent;
